@@ -2,7 +2,7 @@
 import json, os, re
 V = os.path.dirname(os.path.dirname(os.path.abspath(__file__)))
 rows = []
-for d in sorted(x for x in os.listdir(os.path.join(V, "seeded")) if os.path.isdir(os.path.join(V, "seeded", x))):
+for d in sorted(x for x in os.listdir(os.path.join(V, "seeded")) if os.path.isfile(os.path.join(V, "seeded", x, "meta.json"))):
     m = json.load(open(os.path.join(V, "seeded", d, "meta.json")))
     caught = "; ".join("**%s**: %s" % (p, ", ".join(sorted({o.split(" runs=")[0].replace("oracle=", "").replace(" where=", "/") for o in c["oracles"]}))[:120] or "-")
                        for p, c in m["caught_by"].items() if c["caught"])
